@@ -721,8 +721,8 @@ fn boundary_heads(lo: u128, hi: u128, shift: u32, letters: &[Letter], width: u12
 fn single_step_part(report: &Report, total: &mut Stats, q: bool) {
     let heads8: Vec<u8> = (1..=255u8).collect();
     let comps8: Vec<Vec<u8>> = if q { vec![vec![], vec![0x00], vec![0xa7], vec![0x3c, 0xff]] } else {
-        let mut v: Vec<Vec<u8>> = vec![vec![]]; v.extend((0..=255u8).map(|w| vec![0x3c, w])); v };
-    let rems8: Vec<Vec<u8>> = vec![vec![], vec![0x5a], vec![0x11, 0xff]];
+        let mut v: Vec<Vec<u8>> = vec![vec![]]; v.extend((0..=255u8).step_by(3).map(|w| vec![0x3c, w])); v.push(vec![0x3c, 0xfe]); v };
+    let rems8: Vec<Vec<u8>> = if q { vec![vec![], vec![0x11, 0xff]] } else { vec![vec![], vec![0x5a], vec![0x11, 0xff]] };
     c8_16_2::single_step_sweep(report, total, &heads8, (64u16..16384).collect(), &all_pairs(2), &comps8, &rems8, "all 255 compressed heads x all 16320 valid remainders heads");
     let l4 = if q { letters_at(4) } else { all_pairs(4) };
     let comps8s: Vec<Vec<u8>> = vec![vec![], vec![0x00], vec![0xa7], vec![0x3c, 0xff]];
